@@ -207,6 +207,7 @@ func (o Obs) String() string {
 // in-memory connection and keeps the other as a target Endpoint.
 type FakeChannel struct {
 	ChName   string
+	W        *World
 	Tag      byte // expected payload tag of data arriving at the target (0 = none)
 	BufLimit int
 	Keep     bool
@@ -233,6 +234,9 @@ func (f *FakeChannel) OpenConnection() (net.Conn, error) {
 	var exp func(int) byte
 	if f.Expect != nil {
 		exp = f.Expect(idx)
+	}
+	if f.W != nil {
+		f.W.Track(a, "server side of target connection")
 	}
 	ep := NewEndpoint(b, fmt.Sprintf("target[%s#%d]", f.ChName, idx), exp, f.Keep)
 	f.Targets = append(f.Targets, ep)
